@@ -197,18 +197,36 @@ Definition wrapped_b (tag : str) (n : nat) (s : str) : outcome (option str) :=
   then do i <- slice s n (List.length s - 1); Ok (Some i)
   else Ok None.
 
-(* parse_two_type_params: byte offset (char_indices) of the first comma at <>-depth 0 *)
-Fixpoint comma0 (d : Z) (s : str) : option nat :=
+(* find_top_level_comma (repair C05-2-3): byte offset (char_indices) of the first comma outside
+   <>, () and []; the signed depth is an i32 in the code, Z here *)
+Definition opens (b : ascii) : bool := Ascii.eqb b "<" || Ascii.eqb b "(" || Ascii.eqb b "[".
+Definition closes (b : ascii) : bool := Ascii.eqb b ">" || Ascii.eqb b ")" || Ascii.eqb b "]".
+Fixpoint comma_top (d : Z) (s : str) : option nat :=
   match s with
   | [] => None
   | b :: r =>
-      if Ascii.eqb b "<" then option_map S (comma0 (d + 1) r)
-      else if Ascii.eqb b ">" then option_map S (comma0 (d - 1) r)
+      if opens b then option_map S (comma_top (d + 1) r)
+      else if closes b then option_map S (comma_top (d - 1) r)
       else if Ascii.eqb b "," && (d =? 0)%Z then Some 0
-      else option_map S (comma0 d r)
+      else option_map S (comma_top d r)
   end.
+Definition find_top_level_comma (s : str) : option nat := comma_top 0 s.
+(* split_top_level: the while-let loop with &rest[..pos] and &rest[pos + 1..] *)
+Fixpoint split_top_go (fuel : nat) (rest : str) : outcome (list str) :=
+  match fuel with
+  | 0 => OutOfFuel
+  | S f =>
+      match find_top_level_comma rest with
+      | Some pos =>
+          do h <- slice_to rest pos; do r <- slice_from rest (pos + 1);
+          do t <- split_top_go f r; Ok (h :: t)
+      | None => Ok [rest]
+      end
+  end.
+Definition split_top_level_b (s : str) : outcome (list str) := split_top_go (S (List.length s)) s.
+
 Definition two_params_b (inner : str) : outcome (option (str * str)) :=
-  match comma0 0 inner with
+  match find_top_level_comma inner with
   | None => Ok None
   | Some p => do k <- slice_to inner p; do v <- slice_from inner (p + 1); Ok (Some (trim k, trim v))
   end.
@@ -218,7 +236,7 @@ Definition result_ok_b (s : str) : outcome (option str) :=
   match w with
   | None => Ok None
   | Some inner =>
-      match find_char "," inner with
+      match find_top_level_comma inner with
       | Some c => do o <- slice_to inner c; Ok (Some (trim o))
       | None => Ok (Some inner)
       end
@@ -241,7 +259,7 @@ Definition tuple_b (s : str) : outcome (option (list str)) :=
     do inner <- slice s 1 (List.length s - 1);
     match trim inner with
     | [] => Ok (Some [])
-    | _ => Ok (Some (map trim (split "," inner)))
+    | _ => do parts <- split_top_level_b inner; Ok (Some (map trim parts))
     end
   else Ok None.
 
@@ -307,7 +325,7 @@ Definition leaf_is_name (s : str) : bool :=
   end.
 
 Definition pair_b (fuel_call : str -> outcome (list str)) (inner : str) : outcome (list str) :=
-  match find_char "," inner with
+  match find_top_level_comma inner with
   | Some c =>
       do a <- slice_to inner c; do b <- slice_from inner (c + 1);
       do x <- fuel_call (trim a); do y <- fuel_call (trim b); Ok (x ++ y)
@@ -316,7 +334,7 @@ Definition pair_b (fuel_call : str -> outcome (list str)) (inner : str) : outcom
 
 (* Result<..>: both arms, or the single argument of a one-argument alias (repaired) *)
 Definition result_names_b (fuel_call : str -> outcome (list str)) (inner : str) : outcome (list str) :=
-  match find_char "," inner with
+  match find_top_level_comma inner with
   | Some _ => pair_b fuel_call inner
   | None => fuel_call inner
   end.
@@ -340,7 +358,8 @@ Fixpoint names_go (fuel : nat) (s0 : str) : outcome (list str) :=
       match strip_wrapped prefix s with Some inner => names_go f inner | None => Ok [] end
     else if starts (L "(") s && ends_with_char ")" s && negb (str_eqb s (L "()")) then
       do inner <- slice s 1 (List.length s - 1);
-      do l <- mapM_b (fun p => names_go f (trim p)) (split "," inner);
+      do parts <- split_top_level_b inner;
+      do l <- mapM_b (fun p => names_go f (trim p)) parts;
       Ok (concat l)
     else if starts (L "&") s then names_go f (trim_amps s)
     else if leaf_is_name s then Ok [s] else Ok []
@@ -357,9 +376,7 @@ Fixpoint prefix_go (fuel : nat) (t : str) : outcome str :=
   | S f =>
     if one_of t ["void"; "string"; "number"; "boolean"; "any"; "unknown"; "null"; "undefined"]%string then Ok t
     else match strip_suffix (L "[]") t with
-    | Some base =>
-        if one_of base ["string"; "number"; "boolean"; "void"]%string then Ok t
-        else Ok (L "types." ++ base ++ L "[]")
+    | Some base => do r <- prefix_go f base; Ok (r ++ L "[]")      (* repair C05-4: the element type is qualified recursively *)
     | None =>
     if starts (L "Record<") t || starts (L "Map<") t then Ok t
     else if ends_with (L " | null") t then
